@@ -840,7 +840,7 @@ func parseDir(fset *token.FileSet, dir, relPrefix string, tags []string) (files 
 }
 
 // the exported API (and, through calls, fromEntropy); lang.go's two methods are read structurally
-var translationRoots = []string{"NewMnemonicByEntropy", "NewMnemonic", "MnemonicToSeed", "CheckMnemonic", "IsMnemonicValid", "Language.String"}
+var translationRoots = []string{"Language.list", "NewMnemonicByEntropy", "NewMnemonic", "MnemonicToSeed", "CheckMnemonic", "IsMnemonicValid", "Language.String"}
 
 func main() {
 	repo := flag.String("repo", "/repo", "repository root")
@@ -1103,6 +1103,9 @@ func main() {
 		}
 		tr := newTranslator(fset, rootFiles, lc, &facts.Problems)
 		tr.gateCond = gateHoles
+		for n := range words {
+			tr.tables[n] = true
+		}
 		code, status := tr.codeLean(translationRoots)
 		facts.Translated = status
 		for rel, c := range code {
